@@ -4,11 +4,17 @@ Header   `fallback strategy=<s> [handle=<mask>] val=<n>`
 Requests `arrive <c> tag=<t> inner=<lat>:<out>[,<lat>:<out>]` (second step = the backup call)
 Handles  `manual dropsvc`: the caller drops the service, its clones and the layer (calls in flight
          keep running; later arrivals are answered `noop`)
+Readiness `ready=<script>` / `bready=<script>` in the header: the wrapped / the backup service answers
+         successive `poll_ready` calls from the script (r ready, p pending, e error kind 9 payload 0;
+         ready once exhausted). A caller polls the layer ready once when it arrives: pending ->
+         `result c notready`, error -> `resp c …` / `result c …` with what `poll_ready` returned.
 
 The grid strategy x predicate x inner outcome x backup outcome (x latency pattern x point at which
 the service handles are dropped) is small and is enumerated completely by the first GRID_SIZE calls
-of `gen` in every run, in both tiers; the remaining cases are random schedules (polls/drops/advances
-in every phase, the handles dropped at a random point of every second one, random payloads).
+of `gen` in every run, in both tiers; then the readiness grid (strategy x predicate {none, accepts the
+readiness error, rejects it} x latency pattern, every request meeting a scripted readiness answer); the
+remaining cases are random schedules (polls/drops/advances in every phase, the handles dropped at a
+random point of every second one, readiness scripts in two of five, random payloads).
 """
 from gen.util import kvs, tparse
 
@@ -34,18 +40,77 @@ def _grid():
     return g
 
 
+# readiness: the scripted readiness error has kind 9 — no predicate / a predicate that accepts it (and kind 1) /
+# one that rejects it (accepts kinds 1 and 2)
+READY_KIND = 9
+READY_HANDLES = [None, (1 << READY_KIND) | 2, 6]
+READY_GRID = [(s, h, li, lb) for s in STRATEGIES for h in READY_HANDLES for (li, lb) in [(0, 0), (5, 3)]]
+
 GRID = _grid()
-GRID_SIZE = len(GRID)
+GRID_SIZE = len(GRID) + len(READY_GRID)
 _counter = [0]
 
 
 _order = [0]
 
 
-def header(s, h, val):
+def header(s, h, val, ready=None, bready=None):
     # alternate the order of the two builder calls (strategy / handle predicate): they must commute
     _order[0] ^= 1
-    return "fallback strategy=%s%s val=%d order=%d" % (s, "" if h is None else " handle=%d" % h, val, _order[0])
+    return "fallback strategy=%s%s val=%d order=%d%s%s" % (
+        s, "" if h is None else " handle=%d" % h, val, _order[0],
+        "" if ready is None else " ready=%s" % ready, "" if bready is None else " bready=%s" % bready)
+
+
+def _script(rng, n, weights="rrrppee"):
+    """a readiness script of n answers; at most 3 pending answers in a row (a pending answer of the backup's
+    readiness makes the response future wake itself: the poll step of the harness re-polls up to 8 times)"""
+    out = ""
+    for _ in range(n):
+        ch = rng.choice(weights)
+        if ch == "p" and out.endswith("ppp"):
+            ch = "r"
+        out += ch
+    return out
+
+
+def ready_case(rng, point):
+    """every strategy x predicate mode: requests that meet a readiness error, a pending and a ready wrapped service
+    (in random order), call errors of the same kind 9 next to them, and for the backup strategy a backup service
+    with a readiness script of its own"""
+    s, h, li, lb = point
+    val = rng.choice([700, 7000, 0])
+    answers = list("eepprrrrrr")
+    rng.shuffle(answers)
+    answers = answers[:rng.randint(6, 10)]
+    if "e" not in answers:
+        answers[rng.randrange(len(answers))] = "e"
+    # short scripts too: the service is ready once its script is exhausted
+    ready = "".join(answers)[:rng.choice([len(answers), len(answers), 3])]
+    if "e" not in ready:
+        ready = "e" + ready[1:]
+    bready = _script(rng, rng.randint(2, 8), "rrppee") if s == "service" and rng.random() < 0.8 else None
+    if bready is not None and "e" not in bready:
+        bready += "e"
+    ops = []
+    ids = list(range(1, len(answers) + 3))
+    for c in ids:
+        io = rng.choice(["ok", "err1", "err%d" % READY_KIND, "err%d" % READY_KIND, "err2", "panic", "never"])
+        bo = rng.choice(["ok", "ok", "err3", "panic", "never"])
+        ops.append("arrive %d tag=%d inner=%d:%s,%d:%s" % (c, 10 + rng.randint(0, 80), li, io, lb, bo))
+        r = rng.random()
+        if r < 0.3:
+            ops.append("poll %d" % c)
+        elif r < 0.4:
+            ops.append("drop %d" % c)
+    ops.append("settle")
+    for d in ([li] if li else []) + ([lb] if lb else []):
+        ops.append("adv %d" % d)
+        ops.append("settle")
+    if rng.random() < 0.3:
+        _dropsvc(rng, ops, len(ids) + 1)
+    ops.append("dropall")
+    return {"header": header(s, h, val, ready, bready), "ops": ops}
 
 
 def _dropsvc(rng, ops, c):
@@ -109,9 +174,12 @@ def pick_out(rng):
 
 def random_case(rng):
     s = rng.choice(STRATEGIES + ["service"])
-    h = rng.choice([None, None, 0, 2, 4, 6, 8, 14, rng.randint(0, 1023), (1 << 64) - 1])
+    h = rng.choice([None, None, 0, 2, 4, 6, 8, 14, 512, 514, rng.randint(0, 1023), (1 << 64) - 1])
     val = rng.choice([0, 1, 700, rng.randint(0, 100000)])
     ncall = rng.randint(1, 8)
+    # readiness scripts (two cases in five): of the wrapped service, and of the backup service
+    ready = _script(rng, rng.randint(1, ncall + 2)) if rng.random() < 0.4 else None
+    bready = _script(rng, rng.randint(1, ncall + 2), "rrrppe") if s == "service" and rng.random() < 0.4 else None
     pending = list(range(1, ncall + 1))
     arrived = []
     ops = []
@@ -169,14 +237,16 @@ def random_case(rng):
         ops.append("settle")
     if rng.random() < 0.5:
         ops.append("dropall")
-    return {"header": header(s, h, val), "ops": ops}
+    return {"header": header(s, h, val, ready, bready), "ops": ops}
 
 
 def gen(rng, tier):
     i = _counter[0]
     _counter[0] += 1
-    if i < GRID_SIZE:
+    if i < len(GRID):
         return grid_case(rng, GRID[i])
+    if i < GRID_SIZE:
+        return ready_case(rng, READY_GRID[i - len(GRID)])
     return random_case(rng)
 
 
@@ -196,34 +266,112 @@ def _requests(case):
     return tags
 
 
+_NAMED = ("inner_call", "inner_done", "inner_drop", "binner_call", "binner_done", "binner_drop", "resp", "result")
+
+
 def _per_caller(lines):
     """attribute every log line to a caller; `predicate`/`strategy` lines (which do not name a
-    caller) belong to the caller whose inner call completed on the line before them"""
+    caller) belong to the caller whose inner call completed on the line before them — or, when no
+    inner call has just completed (a user function invoked from `poll_ready`), to the caller named
+    by the next line"""
     per = {}
     owner = None
     order = []
-    for i, l in enumerate(lines):
-        _, w = tparse(l)
+    ws = [tparse(l)[1] for l in lines]
+    for i, w in enumerate(ws):
         if not w or w[0] == "noop":
             owner = None
             continue
         if w[0] in ("predicate", "strategy"):
-            if owner is None:
-                return None, "line %d: %r outside the completion of an inner call" % (i, l)
-            per[owner].append(w)
-            order.append((owner, w))
+            who = owner
+            if who is None:
+                nxt = [x for x in ws[i + 1:] if x and x[0] in _NAMED]
+                if not nxt:
+                    return None, "line %d: %r outside the completion of an inner call" % (i, lines[i])
+                who = int(nxt[0][1])
+            per.setdefault(who, []).append(w)
+            order.append((who, w))
             continue
-        if w[0] in ("inner_call", "inner_done", "inner_drop", "binner_call", "binner_done", "binner_drop", "resp", "result"):
+        if w[0] in _NAMED:
             c = int(w[1])
+            if w[0] in ("inner_call", "binner_call"):
+                # a service with a readiness script also logs the tag and whether this instance was polled ready
+                if "ready=0" in w:
+                    return None, "line %d: %r — the service was called on an instance that had not been polled ready" % (i, lines[i])
+                w = [x for x in w if "=" not in x]
             per.setdefault(c, []).append(w)
             order.append((c, w))
             owner = c if w[0] == "inner_done" else None
             continue
-        return None, "line %d: unexpected line %r" % (i, l)
+        return None, "line %d: unexpected line %r" % (i, lines[i])
     return (per, order), None
 
 
-def _expected(cfg, c, tag, k, out, k2, out2, n):
+def _handled(cfg, out):
+    """does the layer handle the inner call's outcome `out` (errN)? — the handle predicate, always without one"""
+    if not out.startswith("err"):
+        return False
+    if "handle" not in cfg:
+        return True
+    kd = int(out[3:])
+    return kd < 64 and bool((int(cfg["handle"]) >> kd) & 1)
+
+
+def _ready_answers(case):
+    """caller -> the answer ('r', 'p', 'e') its one `poll_ready` gets from the wrapped service's script: the
+    arrivals that reach the service (first arrival of a caller, handles not yet dropped) consume it in order"""
+    ready = kvs(case["header"]).get("ready", "")
+    ans = {}
+    gone = False
+    seen = set()
+    for o in case["ops"]:
+        w = o.split()
+        if w[:2] == ["manual", "dropsvc"]:
+            gone = True
+        elif len(w) >= 2 and w[0] == "arrive" and w[1].isdigit():
+            c = int(w[1])
+            if c in seen:
+                continue
+            seen.add(c)
+            if not gone:
+                i = len(ans)
+                ans[c] = ready[i] if i < len(ready) and ready[i] in "pe" else "r"
+    return ans
+
+
+def _backup_answers(cfg, order):
+    """caller -> (pending answers skipped, answer) of the backup service's readiness, consumed in log order by the
+    requests whose inner call ended in a handled error under the backup strategy"""
+    bready = cfg.get("bready", "")
+    out = {}
+    if cfg.get("strategy", "value") != "service":
+        return out
+    i = 0
+    for (c, w) in order:
+        if w[0] == "inner_done" and _handled(cfg, w[3]) and c not in out:
+            n = 0
+            while i < len(bready) and bready[i] == "p":
+                i += 1
+                n += 1
+            a = bready[i] if i < len(bready) and bready[i] == "e" else "r"
+            i += 1
+            out[c] = (n, a)
+    return out
+
+
+READY_ERR = (9, 0)
+
+
+def _expected_ready(c, a):
+    """what an arrival logs when the wrapped service's `poll_ready` is pending / fails: the error comes back
+    unchanged under the pass-through variant; nothing is consulted, nothing is called"""
+    if a == "p":
+        return [["result", str(c), "notready"]]
+    return [["resp", str(c), "inner", str(READY_ERR[0]), str(READY_ERR[1])],
+            ["result", str(c), "err:inner%d:%d" % READY_ERR]]
+
+
+def _expected(cfg, c, tag, k, out, k2, out2, n, bans="r"):
     """The property, as a reference function: the lines caller c's request must produce once its
     inner call (serial k) has completed with `out`; `None` marks the point where the layer waits
     for the backup call (serial k2, outcome out2). n = earlier invocations of the value function."""
@@ -257,6 +405,10 @@ def _expected(cfg, c, tag, k, out, k2, out2, n):
     if strat == "exception":
         return seq + [["strategy", "exception", str(kd), str(k)],
                       ["resp", str(c), "inner", str(kd + 10), str(k)], ["result", str(c), "err:inner%d:%d" % (kd + 10, k)]]
+    if bans == "e":
+        # the backup service failed readiness: a failure of the backup (its error), no backup call
+        return seq + [["resp", str(c), "fallback_failed", str(READY_ERR[0]), str(READY_ERR[1])],
+                      ["result", str(c), "err:all_failed:inner%d:%d" % READY_ERR]]
     # backup service, called with the same request
     seq.append(["binner_call", str(c), "?"])
     if k2 is None:
@@ -290,10 +442,27 @@ def mon_c17(case, lines, meta):
     serials = [int(w[2]) for (_, w) in order if w[0] in ("inner_call", "binner_call")]
     if serials != list(range(len(serials))):
         return "serials of inner/backup calls are not 0,1,2,… in call order: %s" % serials[:20]
+    rans = _ready_answers(case)
+    bans = _backup_answers(cfg, order)
+    for c, a in rans.items():
+        if a != "r" and c not in per:
+            return "caller %d met a %s wrapped service on arrival: expected %r, nothing logged" % (
+                c, "pending" if a == "p" else "failing", " ".join(_expected_ready(c, a)[0]))
     for c, evs in per.items():
         if c not in tags:
             return "caller %d appears in the log but never arrived" % c
         tag = tags[c]
+        if rans.get(c, "r") != "r":
+            exp = _expected_ready(c, rans[c])
+            if evs != exp:
+                i = 0
+                while i < len(evs) and i < len(exp) and evs[i] == exp[i]:
+                    i += 1
+                return "caller %d (readiness of the wrapped service: %s; poll_ready must forward it unchanged and call nothing): expected %r, observed %r" % (
+                    c, "pending" if rans[c] == "p" else "error %d:%d" % READY_ERR,
+                    " ".join(exp[i]) if i < len(exp) else "<nothing more>",
+                    " ".join(evs[i]) if i < len(evs) else "<nothing more>")
+            continue
         if evs[0][0] != "inner_call":
             return "caller %d: first event is %s, not its inner call" % (c, " ".join(evs[0]))
         k = int(evs[0][2])
@@ -312,7 +481,7 @@ def mon_c17(case, lines, meta):
                 k2 = int(w[2])
             if w[0] == "binner_done":
                 out2 = w[3]
-        exp = _expected(cfg, c, tag, k, out, k2, out2, vfn_index.get(c, n))
+        exp = _expected(cfg, c, tag, k, out, k2, out2, vfn_index.get(c, n), bans.get(c, (0, "r"))[1])
         got = rest
         if got and got[-1][0] == "binner_drop":
             if got[-1] != ["binner_drop", str(c), str(k2)] or out2 is not None:
@@ -379,10 +548,34 @@ def canon(lines):
     return ["noop" if l.split()[-1:] == ["noop"] and len(l.split()) <= 2 else l for l in lines]
 
 
+def _ready_tags(case, lines, cfg, strat):
+    """readiness answers met by arrivals (with the strategy and the predicate's view of the readiness error), and by
+    the backup closure"""
+    tags = []
+    r, err = _per_caller(lines)
+    if err:
+        return tags
+    per, order = r
+    mode = "nopred" if "handle" not in cfg else "accepted" if _handled(cfg, "err%d" % READY_KIND) else "rejected"
+    for c, a in _ready_answers(case).items():
+        if a == "e" and c in per:
+            tags += ["ready-error", "ready-error-%s-%s" % (strat, mode)]
+        elif a == "p" and c in per:
+            tags.append("ready-pending")
+        elif a == "r" and "ready" in cfg and c in per:
+            tags.append("ready-ok-scripted")
+    for c, (n, a) in _backup_answers(cfg, order).items():
+        if "bready" in cfg:
+            tags.append("backup-ready-error" if a == "e" else "backup-ready-ok-scripted")
+            if n:
+                tags.append("backup-ready-pending")
+    return tags
+
+
 def transitions(case, lines, meta=None):
     cfg = kvs(case["header"])
     strat = cfg.get("strategy", "value")
-    tags = _dropsvc_tags(case, lines, meta)
+    tags = _dropsvc_tags(case, lines, meta) + _ready_tags(case, lines, cfg, strat)
     done_err = set()
     for l in lines:
         _, w = tparse(l)
@@ -431,7 +624,10 @@ ALL = (["inner-ok", "inner-err", "inner-panic", "handled-no-predicate", "predica
        + ["result-replaced-" + s for s in STRATEGIES if s != "exception"]
        + ["dropsvc", "dropsvc-before-first-poll", "dropsvc-inner-pending", "dropsvc-backup-pending", "dropsvc-after-completion",
           "inner-err-after-dropsvc", "predicate-after-dropsvc", "strategy-after-dropsvc", "backup-call-after-dropsvc",
-          "arrive-after-dropsvc"])
+          "arrive-after-dropsvc"]
+       + ["ready-error", "ready-pending", "ready-ok-scripted", "backup-ready-error", "backup-ready-pending",
+          "backup-ready-ok-scripted"]
+       + ["ready-error-%s-%s" % (s, m) for s in STRATEGIES for m in ("nopred", "accepted", "rejected")])
 
 LEVEL_NOTE = ("Trusted: Lean kernel; the reading of lib.rs:274-512 as TR.Model.Fallback.afterInner/afterBackup and of the async block as the "
               "three-phase machine (validated by the sampled correspondence check, which enumerates the complete strategy x predicate x inner "
@@ -455,11 +651,13 @@ SPECS = {
         "rule": "the first %d cases of every run enumerate the grid 6 strategies x {no predicate, accepts kind 1, accepts kinds 1-2, rejects all} "
                 "x inner {ok, err1, err2, panic, never} x backup {ok, err3, err1, panic, never} x latency pattern {0,5}x{0,3} ms (25 tagged "
                 "requests per case) x service handles (service, clones, layer) {kept, dropped before the first poll, after the first polls, "
-                "after the first latency, after completion}; the rest are seeded random schedules (arrive/poll/drop/adv/settle, 1..8 requests, "
+                "after the first latency, after completion}, then the readiness grid 6 strategies x predicate {none, accepts the readiness error "
+                "(kind 9), rejects it} x latency pattern {0+0, 5+3} ms (8..12 requests meeting scripted ready/pending/error answers of the wrapped "
+                "service, call errors of kind 9 next to them, a scripted backup readiness for the backup strategy); the rest are seeded random schedules (arrive/poll/drop/adv/settle, 1..8 requests, "
                 "random tags, kinds, masks, latencies, drops in every phase, in every second one the service handles dropped at a random point "
-                "and requests attempted afterwards); distinct = distinct implementation log; non-trivial = an error was replaced, returned "
+                "and requests attempted afterwards, in two of five a readiness script of the wrapped service / of the backup service); distinct = distinct implementation log; non-trivial = an error was replaced, returned "
                 "unchanged, or the backup failed / was cancelled" % GRID_SIZE,
-        "trusted": ["transcription of Fallback::call (lib.rs:274-512) in TR.Model.Fallback, sampled by the correspondence check (complete grid)",
+        "trusted": ["transcription of Fallback::poll_ready (lib.rs:270) and Fallback::call (lib.rs:274-512) in TR.Model.Fallback, sampled by the correspondence check (complete grid)",
                     "harness: manual poller, scripted inner/backup services, test functions handed to the builder", "python diff/monitor"],
         "assumptions": ["the user-supplied functions are the fixed test functions of the harness (value 'val', value_fn = val+#calls, from_error, "
                         "from_request_error, exception = kind+10, predicate = bit mask over kinds); the theorems about afterInner hold for these, "
@@ -472,7 +670,10 @@ SPECS = {
                       "operation sequence (all poll/drop/advance orders) each request's events in the log of the poll-level machine are exactly a "
                       "prefix stage of that function's canonical trace; and dropping every handle on the service (service, clones, layer) "
                       "at any point of any run changes nothing but the possibility of making further calls — the log, hence every outcome, is "
-                      "independent of when or whether the handles are dropped (dropsvc_only_stops_new_calls, log_independent_of_dropsvc_time). "
+                      "independent of when or whether the handles are dropped (dropsvc_only_stops_new_calls, log_independent_of_dropsvc_time); "
+                      "and a readiness error of the wrapped service is returned unchanged under the pass-through variant with no predicate, "
+                      "strategy, inner or backup call, whatever the configuration (poll_ready_forwards, readiness_error_passed_through, "
+                      "callbacks_only_after_call_error, readiness_failure_unchanged). "
                       "Model tied to the real FallbackLayer by line-for-line agreement on the "
                       "complete grid plus random schedules.",
         "level_note": LEVEL_NOTE,
